@@ -228,7 +228,19 @@ def impl(case):
         if kind in ("split_time", "split_dist", "split_speed"):
             ts = [unhex(x) for x in case["ts"]]
             pos = [[unhex(x) for x in p] for p in case["pos"]] if "pos" in case else default_pos(len(ts))
-            t = make_traj(pos, ts)
+            if len(ts) >= 1 and (len(ts) + len(case.get("thr", ""))) % 2 == 0:
+                # same trajectory reached through a history: one extra leading pose, every derived quantity read
+                # (so that any cache of them is filled), then the extra pose is dropped again
+                t = make_traj([[p + 7.0 for p in pos[0]]] + pos, [ts[0] - 1.0] + ts)
+                t.distances, t.path_length, t.positions_xyz, t.orientations_quat_wxyz, t.poses_se3
+                if len(ts) >= 1:
+                    try:
+                        t.speeds
+                    except trajectory.TrajectoryException:
+                        pass
+                t.reduce_to_ids(list(range(1, len(ts) + 1)))
+            else:
+                t = make_traj(pos, ts)
             snap = snapshot(t)
             before = copy.deepcopy(snap["se3"])
             thr = unhex(case["thr"])
